@@ -101,14 +101,21 @@ func (l *LSTM) Apply(inputs []tensor.Tensor) ([]tensor.Tensor, error) {
 		return nil, err
 	}
 
+	// The initial states are reshaped below, work on copies so the inputs stay as they are.
+	var ok bool
+
 	Ht := inputs[5]
 	if Ht == nil {
 		Ht = ops.ZeroTensor(1, batchSize, l.hiddenSize)
+	} else if Ht, ok = Ht.Clone().(tensor.Tensor); !ok {
+		return nil, ops.ErrTypeAssert("tensor.Tensor", inputs[5].Clone())
 	}
 
 	Ct := inputs[6]
 	if Ct == nil {
 		Ct = ops.ZeroTensor(1, batchSize, l.hiddenSize)
+	} else if Ct, ok = Ct.Clone().(tensor.Tensor); !ok {
+		return nil, ops.ErrTypeAssert("tensor.Tensor", inputs[6].Clone())
 	}
 
 	var Pi, Po, Pf tensor.Tensor
